@@ -250,7 +250,12 @@ fn standardise(x: &[Vec<f64>], mu: &[f64], sd: &[f64]) -> Vec<Vec<f64>> {
 ///   |z_j| (|y| + sum_k |z_k||w_k| + sqrt(n)|c|) + alpha |w_j|,
 /// and, when `free`, sum_i r_i against sqrt(n) (|y| + sum_k |z_k||w_k| + sqrt(n)|c|).
 /// `resid`: the residuals to use (the implementation's own y - y_hat for OLS), else recomputed.
-fn stationarity_ratio(z: &[Vec<f64>], y: &[f64], alpha: f64, w: &[f64], c: f64, free: bool, resid: Option<&[f64]>) -> (f64, String) {
+/// `normwise`: every component is measured against the LARGEST column norm instead of its own
+/// (|z_j| replaced by max_k |z_k|, and by max(that, sqrt n) when the intercept is free).  This is
+/// the accuracy a norm-wise backward-stable solver delivers; it is used for the SVD paths, whose
+/// result (unlike Cholesky / Householder QR) is not invariant under column scaling: with column
+/// norms spread over 1e8 the component-wise ratio of the unchanged SVD paths reaches 1e-6.
+fn stationarity_ratio(z: &[Vec<f64>], y: &[f64], alpha: f64, w: &[f64], c: f64, free: bool, resid: Option<&[f64]>, normwise: bool) -> (f64, String) {
     let n = z.len();
     let p = z[0].len();
     let r: Vec<f64> = match resid {
@@ -259,11 +264,12 @@ fn stationarity_ratio(z: &[Vec<f64>], y: &[f64], alpha: f64, w: &[f64], c: f64, 
     };
     let cn: Vec<f64> = (0..p).map(|j| norm2(&column(z, j))).collect();
     let base = norm2(y) + (0..p).map(|k| cn[k] * w[k].abs()).sum::<f64>() + (n as f64).sqrt() * c.abs();
+    let cmax = cn.iter().fold(if free { (n as f64).sqrt() } else { 0.0 }, |a, b| a.max(*b));
     let mut worst = 0.0f64;
     let mut what = String::new();
     for j in 0..p {
         let g = alpha * w[j] - (0..n).map(|i| z[i][j] * r[i]).sum::<f64>();
-        let sc = cn[j] * base + alpha * w[j].abs();
+        let sc = if normwise { cmax } else { cn[j] } * base + alpha * w[j].abs();
         let ratio = if sc > 0.0 { g.abs() / sc } else if g == 0.0 { 0.0 } else { f64::INFINITY };
         if !(ratio <= worst) {
             worst = ratio;
@@ -272,7 +278,7 @@ fn stationarity_ratio(z: &[Vec<f64>], y: &[f64], alpha: f64, w: &[f64], c: f64, 
     }
     if free {
         let s: f64 = r.iter().sum();
-        let sc = (n as f64).sqrt() * base;
+        let sc = if normwise { cmax } else { (n as f64).sqrt() } * base;
         let ratio = if sc > 0.0 { s.abs() / sc } else if s == 0.0 { 0.0 } else { f64::INFINITY };
         if !(ratio <= worst) {
             worst = ratio;
@@ -529,7 +535,7 @@ fn check_case(out: &mut Out, c: &Case, st: &mut Stats) {
                     }
                     // the property's residual: y - y_hat with y_hat = predict(X)
                     let r: Vec<f64> = (0..n).map(|i| c.y[i] - fit.pred_train[i]).collect();
-                    let (ratio, what) = stationarity_ratio(&c.x, &c.y, 0.0, &fit.w, fit.b, true, Some(&r));
+                    let (ratio, what) = stationarity_ratio(&c.x, &c.y, 0.0, &fit.w, fit.b, true, Some(&r), sol == Sol::SVD);
                     st.note(&format!("ols{}:{}", tag, sol.name()), ratio);
                     if !(ratio <= tol) {
                         out.fail("ols_normal_equations", &format!("{}: residual not orthogonal / not summing to zero: {} (ratio {:e})", sol.name(), what, ratio), c.to_json());
@@ -560,12 +566,12 @@ fn check_case(out: &mut Out, c: &Case, st: &mut Stats) {
                         // standardised coordinates: ws_j = w_j sd_j, c = b + sum_j w_j mu_j, free intercept
                         let ws: Vec<f64> = (0..p).map(|j| fit.w[j] * sd[j]).collect();
                         let c0 = fit.b + (0..p).map(|j| fit.w[j] * mu[j]).sum::<f64>();
-                        stationarity_ratio(&z, &c.y, c.alpha, &ws, c0, true, None)
+                        stationarity_ratio(&z, &c.y, c.alpha, &ws, c0, true, None, sol == Sol::SVD)
                     } else {
                         if fit.b != 0.0 {
                             out.fail("ridge_gradient_zero", &format!("{}: normalize = false but the intercept is {:e}, not 0", sol.name(), fit.b), c.to_json());
                         }
-                        stationarity_ratio(&c.x, &c.y, c.alpha, &fit.w, 0.0, false, None)
+                        stationarity_ratio(&c.x, &c.y, c.alpha, &fit.w, 0.0, false, None, sol == Sol::SVD)
                     };
                     st.note(&format!("ridge{}:{}:{}", tag, if c.normalize { "norm" } else { "raw" }, sol.name()), ratio);
                     if !(ratio <= tol) {
@@ -802,14 +808,27 @@ fn corr_ols(out: &mut Out, x: &[Vec<f64>], y: &[f64], sol: Sol, with_validator: 
 fn corr_validator(out: &mut Out, c: &Case, rng: &mut Rng) {
     let tol = if c.f32m { COQ_TOL32 } else { COQ_TOL64 };
     let p = c.x[0].len();
+    // the validator is component-wise; the SVD paths are only norm-wise accurate (see
+    // `stationarity_ratio`), so for them the tolerance is widened by the spread of the column norms
+    // of the coordinates the fit is tested in (1 for standardised columns)
+    let spread = |with_ones: bool| -> f64 {
+        let mut cn: Vec<f64> = (0..p).map(|j| norm2(&column(&c.x, j))).collect();
+        if with_ones {
+            cn.push((c.x.len() as f64).sqrt());
+        }
+        let mx = cn.iter().fold(0.0f64, |a, b| a.max(*b));
+        let mn = cn.iter().fold(f64::INFINITY, |a, b| a.min(*b));
+        if mn > 0.0 { mx / mn } else { 1.0 }
+    };
     if !c.ridge {
         for sol in [Sol::QR, Sol::SVD] {
             if let Ok(Some(ft)) = fit_ols(&c.x, &c.y, sol, &c.xnew, c.f32m) {
                 let mut input = c.to_json();
                 input["solver"] = json!(sol.name());
+                let tol_sol = if sol == Sol::SVD { tol * spread(true) } else { tol };
                 out.corr(
                     if c.f32m { "check_ols_f32" } else { "check_ols" },
-                    format!("corr_check_ols {} {} {} {} {}", coq_rows_f64(&c.x), coq_list_f64(&c.y), coq_list_f64(&ft.w), coq_f64(ft.b), coq_f64(tol)),
+                    format!("corr_check_ols {} {} {} {} {}", coq_rows_f64(&c.x), coq_list_f64(&c.y), coq_list_f64(&ft.w), coq_f64(ft.b), coq_f64(tol_sol)),
                     input.clone(),
                 );
                 if !c.xnew.is_empty() && ft.pred_new.len() == c.xnew.len() {
@@ -834,7 +853,7 @@ fn corr_validator(out: &mut Out, c: &Case, rng: &mut Rng) {
                     let mut w2 = ft.w.clone();
                     w2[j] += 0.05 * (ft.w[j].abs() + (norm2(&c.y) + 1.0) / cnj);
                     let r: Vec<f64> = (0..c.x.len()).map(|i| c.y[i] - (0..p).map(|k| c.x[i][k] * w2[k]).sum::<f64>() - ft.b).collect();
-                    let (ratio, _) = stationarity_ratio(&c.x, &c.y, 0.0, &w2, ft.b, true, Some(&r));
+                    let (ratio, _) = stationarity_ratio(&c.x, &c.y, 0.0, &w2, ft.b, true, Some(&r), false);
                     if ratio > 1e3 * tol {
                         out.corr(
                             "check_rejects",
@@ -850,6 +869,7 @@ fn corr_validator(out: &mut Out, c: &Case, rng: &mut Rng) {
             if let Ok(Some(ft)) = fit_ridge(&c.x, &c.y, c.alpha, c.normalize, sol, &c.xnew, c.f32m) {
                 let mut input = c.to_json();
                 input["solver"] = json!(sol.name());
+                let tol_sol = if sol == Sol::SVD && !c.normalize { tol * spread(false) } else { tol };
                 out.corr(
                     if c.f32m { "check_ridge_f32" } else { "check_ridge" },
                     format!(
@@ -860,7 +880,7 @@ fn corr_validator(out: &mut Out, c: &Case, rng: &mut Rng) {
                         coq_bool(c.normalize),
                         coq_list_f64(&ft.w),
                         coq_f64(ft.b),
-                        coq_f64(tol)
+                        coq_f64(tol_sol)
                     ),
                     input.clone(),
                 );
@@ -880,9 +900,9 @@ fn corr_validator(out: &mut Out, c: &Case, rng: &mut Rng) {
                         let z = standardise(&c.x, &mu, &sd);
                         let ws: Vec<f64> = (0..p).map(|j| w2[j] * sd[j]).collect();
                         let c0 = b2 + (0..p).map(|j| w2[j] * mu[j]).sum::<f64>();
-                        stationarity_ratio(&z, &c.y, c.alpha, &ws, c0, true, None)
+                        stationarity_ratio(&z, &c.y, c.alpha, &ws, c0, true, None, false)
                     } else {
-                        stationarity_ratio(&c.x, &c.y, c.alpha, &w2, 0.0, false, None)
+                        stationarity_ratio(&c.x, &c.y, c.alpha, &w2, 0.0, false, None, false)
                     };
                     if ratio > 1e3 * tol {
                         out.corr(
